@@ -1244,6 +1244,100 @@ def run_sugar_declines(ctx):
         ctx.case(sample={"stream": "sugar-declines", "expr": gen_terms.python_of(recipe)[:200]})
 
 
+def run_finstack(ctx):
+    """eager_finitary_stack at EVERY dim (Model/C01Fin.lean `finStack`, Props/C01/FinStack.lean `finStack_sem`):
+    2-3 Tensor/Number parts with the same inputs in random relative orders (or, 25%, different input sets: the rule
+    aligns without expand=True, so numpy raises unless the missing inputs have size 1), a common event shape of rank 0-2, every dim in
+    [-rank-1, rank] (plus one out-of-range dim each way).  Gate: `ops.stack(parts, dim)` raises / stays lazy (counted
+    decline) or equals numpy's stack of the pointwise values AND the model; layout (inputs order) is counted."""
+    rng = ctx.rng
+    names = ["i", "j", "k"]
+    orders = [(), ("i",), ("j", "i"), ("i", "j"), ("k", "i"), ("j", "k", "i"), ("i", "k", "j")]
+    size_sets = [{"i": 2, "j": 2, "k": 2}, {"i": 2, "j": 3, "k": 2}, {"i": 1, "j": 2, "k": 1}]
+    shapes = [(), (2,), (2, 3)]
+    todo, reqs = [], []
+    for ev in shapes:
+        rank = len(ev)
+        for dim in range(-rank - 2, rank + 2):
+            for sizes in size_sets:
+                for _ in range(3 if ctx.tier == "quick" else 12):
+                    nparts = rng.choice([2, 2, 3])
+                    parts = []
+                    # the rule aligns WITHOUT expand: it only returns when the parts have the same input set (up to
+                    # size-1 inputs), so most cases permute one set; the rest exercise the decline
+                    base = rng.choice(orders)
+                    same = rng.random() < 0.75
+                    for _k in range(nparts):
+                        if rank == 0 and rng.random() < 0.2:
+                            parts.append(Number(float(rng.choice([-1, 0, 2, 5]))))
+                            continue
+                        order = tuple(rng.sample(base, len(base))) if same else rng.choice(orders)
+                        full = tuple(sizes[n] for n in order) + ev
+                        cnt = int(np.prod(full)) if full else 1
+                        data = np.array([rng.choice([-2, -1, 0, 1, 2, 3, 4]) for _ in range(cnt)],
+                                        dtype=np.float64).reshape(full)
+                        parts.append(Tensor(data, OrderedDict((n, Bint[sizes[n]]) for n in order)))
+                    try:
+                        res = ops.stack(tuple(parts), dim)
+                    except Exception as e:
+                        res = e
+                    ok_dim = -rank - 1 <= dim <= rank
+                    d = dim if dim >= 0 else rank + 1 + dim
+                    todo.append((parts, dim, ev, res, ok_dim))
+                    wires = [ser.to_wire(q) for q in parts]
+                    reqs.append(f"C01 finstack {d if ok_dim else rank + 1} {sx(wires)}")
+    answers = ctx.driver.ask(reqs)
+    for (parts, dim, ev, res, ok_dim), ans in zip(todo, answers):
+        desc = {"parts": [[list(q.inputs), list(q.output.shape)] for q in parts], "dim": dim}
+        ctx.case(sample=desc, nontrivial_key=None)
+        try:
+            nt = nt_of_answer(ans)
+        except Exception:
+            ctx.infra_errors.append(f"driver finstack: {ans[:200]}")
+            continue
+        if not isinstance(res, (Tensor, Number)):
+            ctx.count("finstack:impl-declined" + ("" if ok_dim else ":dim-out-of-range"))
+            if nt is not None and ok_dim:
+                ctx.count("finstack:model-defined-impl-declined")
+            continue
+        if not ok_dim:
+            ctx.count("finstack:impl-value-at-out-of-range-dim")
+            continue
+        # textbook value: numpy stack of the parts' values at every point of the union of the inputs
+        union = OrderedDict()
+        for q in parts:
+            union.update((n, v.size) for n, v in q.inputs.items())
+        ins = list(union.items())
+        good = True
+        for pt in itertools.product(*[range(s_) for _, s_ in ins]):
+            env = dict(zip(union, pt))
+            vals = [np.asarray(q.data)[tuple(env[n] for n in q.inputs)] if isinstance(q, Tensor)
+                    else np.asarray(q.data) for q in parts]
+            want = np.stack([np.asarray(v, dtype=np.float64) for v in vals], dim)
+            got = res(**{n: int(v) for n, v in env.items() if n in res.inputs})
+            if not (isinstance(got, (Tensor, Number)) and not got.inputs
+                    and np.array_equal(np.asarray(got.data, dtype=np.float64), want)):
+                good = False
+                break
+        if not good:
+            ctx.fail("input", "C01.finitary-stack-wrong-value", witness=desc, expected="numpy stack of pointwise values",
+                     got=str(res)[:200])
+            continue
+        ctx.count("finstack:impl-equals-textbook")
+        if nt is None:
+            ctx.count("finstack:model-declined-impl-value")
+            ctx.infra_errors.append(f"finStack model declined where ops.stack returned: {desc}")
+            continue
+        m_ins, m_shape, m_data = nt
+        i_ins = [(n, int(v.size)) for n, v in res.inputs.items()]
+        i_data = [Fraction(float(x)) for x in np.asarray(res.data, dtype=np.float64).reshape(-1)]
+        if m_ins == i_ins and m_shape == list(res.output.shape) and [Fraction(x) for x in m_data] == i_data:
+            ctx.count("finstack:model-equals-impl-exactly(inputs,shape,data)")
+        else:
+            ctx.fail("correspondence", "C01.finstack-model-differs", witness=desc,
+                     expected=str((m_ins, m_shape)), got=str((i_ins, list(res.output.shape))))
+
+
 def quick_skip(rng, ctx):
     return ctx.tier == "quick" and rng.random() < 0.5
 
@@ -1444,6 +1538,7 @@ def correspond(ctx):
     run_phi(ctx, 400 if quick else 8000)
     run_outred(ctx, quick)
     run_named_agg(ctx, quick)
+    run_finstack(ctx)
     stream_known_minmax(ctx)
     stream_known_reduce_andor(ctx)
     # fidelity percentages
